@@ -90,6 +90,10 @@ def allInvalid (c : Cache) : Bool :=
 /-- cache well-formedness that the real client maintains (checked on every observed dump):
     unique keys, and a routing entry only for a partition listed for its topic -/
 def wf (c : Cache) : Bool :=
-  c.t2b.all (fun e => c.topicParts.any (fun tp => tp.1 == e.1.1 && tp.2.contains e.1.2))
+  c.t2b.all (fun e => c.topicParts.any (fun tp => tp.1 == e.1.1 && tp.2.contains e.1.2)) &&
+  -- every broker the routing refers to - a partition's leader, a group's coordinator - is a known broker
+  -- (`_brokers` is never pruned: `_get_brokerclient` of a cached coordinator cannot meet an unknown node id)
+  c.t2b.all (fun e => match e.2 with | some b => Afkak.ClientCache.hasKey b.nodeId c.brokers | none => true) &&
+  c.groups.all (fun e => Afkak.ClientCache.hasKey e.2.nodeId c.brokers)
 
 end Afkak.Monitor.C08
